@@ -34,7 +34,7 @@ func checkC02(r *Run) {
 		"no store/copy/append through memory reachable from the caller's fcall (caller's buffer never written)")
 	r.NotDecided = append(r.NotDecided,
 		"short/partial writes inside bufio and the connection",
-		"that Codec.Size equals the marshalled length (decided by C01's codec-grammar agreement)")
+		"that Codec.Size equals the marshalled length as a value statement (its layout half — size9p mirrors encode per type and per special case — is decided here by the codec-grammar rules)")
 	r.Trusted = append(r.Trusted, "bufio.Writer, encoding/binary.Write")
 
 	wf := p.Fn("p9p:(*channel).WriteFcall")
@@ -53,6 +53,9 @@ func checkC02(r *Run) {
 	c02Truncate(r, mt)
 	c02Sendmsg(r, sm)
 	c02Msgmsize(r, mm)
+	// the fit test compares msize with 4 + Codec.Size(fcall) while the bytes written come from Marshal: the frame
+	// bound holds only if size9p and encode agree for every type and every special case (codec-grammar rules)
+	c01Grammar(r)
 	c02CallerBuffer(r, []*ssa.Function{wf, mt, sm, mm})
 }
 
